@@ -381,7 +381,8 @@ func (r *Run) checkPresenceGuard(id string, fns []*ssa.Function, uriField string
 					}
 					all := true
 					for _, cf := range countFields {
-						if !mentionsLenOfField(bo.X, cf, 0) && !mentionsLenOfField(bo.Y, cf, 0) {
+						if !mentionsLenOfField(bo.X, cf, 0) && !mentionsLenOfField(bo.Y, cf, 0) &&
+							!termMentionsLenOf(ff.TB.Of(bo.X), cf) && !termMentionsLenOf(ff.TB.Of(bo.Y), cf) {
 							all = false
 						}
 					}
@@ -833,6 +834,9 @@ func pathHasEq(ff *core.FnFacts, p []*ssa.BasicBlock, list, fileA, fileB string)
 						return true
 					}
 				}
+				if termMentionsLenOf(other, list) && strings.Contains(other.String(), "."+fileA+".") {
+					return true
+				}
 				if strings.Contains(other.String(), "."+fileA+".Operations."+list) {
 					return true
 				}
@@ -854,11 +858,14 @@ func pathHasDeltaEq(ff *core.FnFacts, p []*ssa.BasicBlock) bool {
 			} else if strings.Contains(fc.B.String(), ".Chunk.Deltas") {
 				sum = fc.A
 			}
-			if sum == nil || sum.Val == nil {
+			if sum == nil {
 				continue
 			}
-			v, ok := sum.Val.(ssa.Value)
-			if ok && mentionsLenOfField(v, "Create", 0) && mentionsLenOfField(v, "Recover", 0) && mentionsLenOfField(v, "Update", 0) {
+			if v, ok := sum.Val.(ssa.Value); ok && mentionsLenOfField(v, "Create", 0) && mentionsLenOfField(v, "Recover", 0) && mentionsLenOfField(v, "Update", 0) {
+				return true
+			}
+			// the counts may travel through a small struct: then the term names them
+			if termMentionsLenOf(sum, "Create") && termMentionsLenOf(sum, "Recover") && termMentionsLenOf(sum, "Update") {
 				return true
 			}
 		}
@@ -1256,4 +1263,24 @@ func (r *Run) checkFetchEveryReference(P string) {
 	}
 	r.R.Check(okInst && nThrough > 0, P+".fetch.install", "E5 field copies on paths: after the provisional files were fetched, ProvisionalIndex, ProvisionalProof and Chunk are each installed from the like-named fetched field before the counts are validated", core.FuncName(f), r.where(f), why,
 		fmt.Sprintf("%d paths through the fetch install all three", nThrough), "a path through the fetch does not install all of ProvisionalIndex, ProvisionalProof, Chunk")
+}
+
+// termMentionsLenOf: the term contains len(<something>.<list>) — directly, under "or zero", or as an operand of a
+// merged value.
+func termMentionsLenOf(t *core.Term, list string) bool {
+	found := false
+	core.StripOrZero(t).Walk(func(x *core.Term) {
+		if found {
+			return
+		}
+		if x.Op == "len" && len(x.Args) == 1 && strings.HasSuffix(x.Args[0].String(), "."+list) {
+			found = true
+		}
+		if x.Op == "phi" {
+			if v, ok := x.Val.(ssa.Value); ok && mentionsLenOfField(v, list, 0) {
+				found = true
+			}
+		}
+	})
+	return found
 }
